@@ -80,6 +80,16 @@ CLAIMED = {
         "Comment stripper: //, /* */, Fortran ! outside character literals. The *_types.yaml data file is not compared.",
         "DESIGN.md section 3 C16",
     ),
+    "C08": (
+        "exhaustive enumeration of function families (overload sets x trailing defaults x suffix modes x fortran_generic x template lists x scope) with a name model predicting C entry points, Fortran specifics/generics and method-table keys",
+        "Every overload set of size 1-3 over five argument lists with every admissible number of trailing defaults (callable signatures pairwise distinct), in every suffix mode "
+        "(sequence numbers, explicit function_suffix/default_arg_suffix, mixed, fortran_generic), template instantiation lists with default and explicit template_suffix, at library, "
+        "namespace, nested-namespace and class scope, next to a second camel-case family, is generated by the real shroud (529 libraries quick, 1322 thorough). The emitted C "
+        "definitions, Fortran procedures, generic interfaces / type-bound generics and PyMethodDef / luaL_Reg tables are parsed and must equal the model's prediction: one entry point "
+        "per callable signature, all names distinct, each generic listing exactly its specifics, names following the documented templates.",
+        "Argument types are int/double only (no bufferify companions). Exhaustive below the stated bound; nothing is sampled above it.",
+        "DESIGN.md section 3 C08",
+    ),
 }
 
 PENDING_REASON = "check not built yet in this round (planned, see DESIGN.md section 8); not claimed until it runs"
